@@ -225,7 +225,7 @@ def make_jobs(ctx: core.Ctx, n_res: int, n_big: int, n_cmp: int, n_tr: int) -> l
     for k in range(n_cmp):
         jobs.append({"stage": "cmp", "seed": int(rng.integers(1, 2**31 - 1)), "n": int(rng.integers(20, 61)),
                      "filter": k % 2 == 0, "window": (None, 1, 5, 9)[(k // 2) % 4], "M": float(rng.uniform(50.0, 3000.0)),
-                     "extra_columns": k % 3 == 1,
+                     "extra_columns": k % 3 == 1, "dup_index": k % 4 == 2,
                      "tau": float(rng.uniform(30.0, 900.0)), "p_initial": P_INITIAL})
     for k in range(n_tr):
         jobs.append({"stage": "transform", "seed": int(rng.integers(1, 2**31 - 1)), "n": 400})
